@@ -105,10 +105,33 @@ RawCases(g)  == {<<w, v>> : w \in ({Wc32[i] : i \in 1..Len(Wc32)} \cup {"0", "-1
 RawOut(g, x) == ParseVec(StrCat("raw:", x[2]), CodesToStr(RawVar(x[2], x[1], Hashes[g])))
 
 \* ------------------------------------------------------------ part "tl"
+\* TL bytes through a family of deliveries.  rd names how the harness hands the bytes to the decoder:
+\* "bytes" all at once, "one" a byte per read, "half" half of what is asked for, "dataerr" the last data
+\* together with end-of-stream, "bufio16" a 16-byte buffered stream, "split" two chunks cut after byte `at`.
+\* Complete ids (one, or two back to back on ONE stream) must decode to the same value under every
+\* delivery; every proper prefix (and a second id cut short) must be an error.
+TlReaders   == {"bytes", "one", "half", "dataerr", "bufio16"}
 TlGroups    == 1..NH
-TlCases(g)  == {<<Wc32[i], n>> : i \in 1..Len(Wc32), n \in {0, 3, 4, 35, 36, 40}}
-TlOut(g, x) == LET by == SubSeq(TlBytes(x[1], Hashes[g]) \o <<1, 2, 3, 4>>, 1, x[2])  r == TlDecode(by)
-               IN [k |-> "tl", cl |-> IF x[2] < 36 THEN "tl:short" ELSE "tl:full", bytes |-> BytesToHex(by), exp |-> Form(r)]
+TlWcs       == {Wc32[1], Wc32[Len(Wc32)], "-1", "0"}
+TlDeliveries ==
+       {<<36, 1, rd, 0>> : rd \in TlReaders} \cup {<<36, 1, "split", p>> : p \in 1..35}            \* one complete id
+  \cup {<<40, 1, rd, 0>> : rd \in TlReaders}                                                      \* followed by other data
+  \cup {<<n, 1, rd, 0>> : n \in 0..35, rd \in TlReaders \ {"bufio16"}}                            \* every proper prefix
+  \cup {<<n, 1, "split", p>> : n \in {5, 20, 35}, p \in {1, 4}}
+  \cup {<<72, 2, rd, 0>> : rd \in TlReaders} \cup {<<72, 2, "split", p>> : p \in 1..71}            \* two ids, one stream
+  \cup {<<36 + q, 2, rd, 0>> : q \in {0, 1, 4, 5, 20, 35}, rd \in TlReaders \ {"bufio16"}}         \* second id cut short
+TlCases(g)  == {<<w, d>> : w \in TlWcs, d \in TlDeliveries}
+TlOut(g, x) ==
+  LET d  == x[2]
+      one == TlBytes(x[1], Hashes[g])
+      two == TlBytes(IF x[1] = "0" THEN "-1" ELSE "0", Hashes[((g + 2) % NH) + 1])       \* a different id behind it
+      by == SubSeq(one \o two, 1, d[1])
+      r  == TlStreamDecode(by, d[2])
+      ch == IF d[3] = "split" /\ d[4] < Len(by) THEN Chunks(by, <<d[4]>>) ELSE <<by>>
+  IN [k |-> "tl", cl |-> StrCat("tl:", StrCat(d[3], IF d[1] < 36 THEN ":short" ELSE IF d[2] = 2 THEN ":stream" ELSE ":full")),
+      bytes |-> BytesToHex(by), rd |-> d[3], at |-> d[4], n |-> d[2],
+      chunks |-> [i \in 1..Len(ch) |-> BytesToHex(ch[i])],
+      exps |-> [i \in 1..d[2] |-> Form(r[i])]]
 
 \* ------------------------------------------------------------ part "tlb"
 \* addr_std with every anycast depth 1..30 (0 = no anycast) x rewrite prefixes x workchains x ids;
@@ -191,5 +214,10 @@ Coherent ==
            /\ c[2] > 0 => Child(Parent(id), c[3][c[2]] = 0) = id
            /\ ShardPrefix(id) = c[3]
       [] Part = "adnl" -> AdnlDecode(AdnlText(Hashes[c[2]])) = [cls |-> "ok", addr |-> Hashes[c[2]]]
+      [] Part = "tl" ->          \* a complete first id decodes to what was encoded, whatever follows; a delivery is a split of the bytes
+           LET d == c[3][2]  by == SubSeq(TlBytes(c[3][1], Hashes[c[2]]) \o ZeroBits(40), 1, d[1]) IN
+           /\ d[1] >= 36 => TlStreamDecode(by, 1)[1] = [cls |-> "ok", wc |-> c[3][1], hash |-> Hashes[c[2]]]
+           /\ d[1] < 36 => TlStreamDecode(by, 1)[1].cls = "bad"
+           /\ (d[3] = "split" /\ d[4] < d[1]) => FlattenSeq(Chunks(by, <<d[4]>>)) = by
       [] OTHER -> TRUE
 =============================================================================
